@@ -178,7 +178,9 @@ def comp_filter(I, node, seq, env):
     (source, included(i), elt(i)).  The condition must evaluate to a closed boolean formula."""
     g = node.generators[0]
 
-    def at(idx):
+    def at(idx, want_elt=True):
+        # want_elt=False: only the inclusion condition (the emptiness test quantifies over ALL indices; evaluating the element expression at an index that is
+        # not known to lie inside the sequence would report its exceptions - an out-of-range subscript - as if the program could raise them)
         sub = Env(dict(), env.func, env, env.module, set())
         I.assign(g.target, seq.at(idx), sub)
         conds = []
@@ -190,7 +192,7 @@ def comp_filter(I, node, seq, env):
                 conds.append(v)
             else:
                 raise Unsupported('comprehension condition over a symbolic sequence is not a closed boolean formula')
-        elt = I.eval(node.elt, sub)
+        elt = I.eval(node.elt, sub) if want_elt else None
         return (z3.And(conds) if conds else z3.BoolVal(True)), elt
     return Obj(FilterSeqCls, {'n': seq.length, 'at': at, 'source': seq, 'witness': None})
 
@@ -202,12 +204,12 @@ def filterseq_truth(I, o):
     if ctx.choose([True, True], 'filter-nonempty') == 0:
         w = ctx.fresh('witness', 'int')
         ctx.assume(z3.And(0 <= w, w < n))
-        inc, _ = o.fields['at'](w)
+        inc, _ = o.fields['at'](w, False)
         ctx.assume(inc)
         o.fields['witness'] = w
         return True
     i = z3.Int('i!f%d' % o.oid)
-    inc, _ = o.fields['at'](i)
+    inc, _ = o.fields['at'](i, False)
     ctx.assume_forall([i], z3.Implies(z3.And(0 <= i, i < n), z3.Not(inc)), 'filtered list empty')
     o.fields['witness'] = False
     return False
